@@ -91,7 +91,10 @@ Ltac zonal_solve venv :=
 Lemma zonal_laplacian_exact venv penv fenv : venv 0%nat <> 0 -> sin (venv 1%nat) <> 0 -> 0 < penv 0%nat ->
   eval venv penv fenv zonal_lap_0.term = eval venv penv fenv zonal_expansion_0.term /\
   eval venv penv fenv zonal_lap_2.term = eval venv penv fenv zonal_expansion_2.term /\
-  eval venv penv fenv zonal_lap_4.term = eval venv penv fenv zonal_expansion_4.term.
+  eval venv penv fenv zonal_lap_4.term = eval venv penv fenv zonal_expansion_4.term /\
+  (* custom degree lists: the eigenvalue must follow the degree, not the column index *)
+  eval venv penv fenv zonal_lap_deg_3_1.term = eval venv penv fenv zonal_expansion_deg_3_1.term /\
+  eval venv penv fenv zonal_lap_deg_2.term = eval venv penv fenv zonal_expansion_deg_2.term.
 Proof. intros Hr Hs Hpi. repeat split; zonal_solve venv. Qed.
 
 (* ---- real Fourier series: column order 1/2, sin(phi), cos(phi), sin(2 phi), cos(2 phi), ... *)
